@@ -5,3 +5,4 @@ cd "$(dirname "$0")"
 export PYTHONHASHSEED=0 PYTHONPATH="$PWD" PYTHONDONTWRITEBYTECODE=1
 mkdir -p evidence violations
 /venv/bin/python -W ignore -m mc.selftest 2> >(grep -v 'conda.cli.condarc' >&2)
+/venv/bin/python -W ignore -m mc.conformance 2> >(grep -v 'conda.cli.condarc' >&2)
